@@ -132,6 +132,10 @@ fn drive(env: &Env, file: &Path, start: usize, stack: usize, budget_of: &dyn Fn(
         .arg(stack.to_string())
         .env("TMPDIR", env.work.join("tmp"))
         .env("RUST_BACKTRACE", "0")
+        // allocator tuning only (this sandbox has very slow mmap/page faults); no effect on stack use
+        .env("MALLOC_MMAP_THRESHOLD_", "1073741824")
+        .env("MALLOC_TRIM_THRESHOLD_", "1073741824")
+        .env("MALLOC_TOP_PAD_", "67108864")
         .stdin(Stdio::null())
         .stdout(Stdio::piped())
         .stderr(Stdio::piped())
@@ -302,7 +306,10 @@ impl Monitor<'_> {
         let run = self.run;
         run.eval();
         run.count(&format!("inputs_{}", inp.surface), 1);
-        run.count(&format!("outcome_{}", o.class().split(' ').next().unwrap_or("")), 1);
+        let cls = o.class();
+        let cls = cls.split(' ').next().unwrap_or("");
+        run.count(&format!("outcome_{cls}"), 1);
+        run.count(&format!("surface_{}_{cls}", inp.surface), 1);
         run.seen("families", &format!("{}/{}", inp.surface, inp.family.split('+').next().unwrap_or("")));
         if inp.hostile {
             run.nontrivial(inp.hash());
@@ -482,9 +489,10 @@ pub fn main() {
     let feat_upload = run.feature("forged_upload_marker");
     let feat_deep = run.feature("deep_nesting_over_1000");
     let feat_part_ct = run.feature("multipart_part_content_type_multipart");
+    let feat_vardef = run.feature("unknown_variable_type_with_default");
     run.extra(
         "generator_features",
-        json!({"forged_upload_marker": feat_upload, "deep_nesting_over_1000": feat_deep, "multipart_part_content_type_multipart": feat_part_ct}),
+        json!({"forged_upload_marker": feat_upload, "deep_nesting_over_1000": feat_deep, "multipart_part_content_type_multipart": feat_part_ct, "unknown_variable_type_with_default": feat_vardef}),
     );
 
     // 1. pinned witnesses (known findings / regression cases), each alone in a fresh child
@@ -538,7 +546,7 @@ pub fn main() {
                         mon.run.count("batches_not_started_time_cap", 1);
                         continue;
                     }
-                    let mut g = Gen::new(Rng::new(rng::mix(&[seed, 12, b])), feat_upload, feat_deep, feat_part_ct, thorough);
+                    let mut g = Gen::new(Rng::new(rng::mix(&[seed, 12, b])), feat_upload, feat_deep, feat_part_ct, feat_vardef, thorough);
                     let n = batch_size.min(total - b * batch_size);
                     let inputs: Vec<Input> = (0..n).map(|_| g.input()).collect();
                     mon.run_batch(b, &inputs);
